@@ -31,7 +31,8 @@ enum {
 	FM_CTRL = 16,      // NiTransformController -> NiTransformInterpolator -> NiTransformData on a node
 	FM_LOOSE = 32,     // one unreferenced block
 	FM_SYMPOS = 64,    // symbolic vertex positions / uvs
-	FM_CHILDNODE = 128 // extra child node below a bone (deeper tree)
+	FM_CHILDNODE = 128, // extra child node below a bone (deeper tree)
+	FM_LOOSECHAIN = 256 // unreferenced bhkCollisionObject -> bhkRigidBody -> bhkBoxShape chain, stored children first
 };
 
 struct FmModel {
@@ -139,6 +140,16 @@ static inline FmModel fm_build(NifFile& nif, int ver, int feat) {
 		ctrl->targetRef.index = nif.GetBlockID(bone);
 		bone->controllerRef.index = hdr.AddBlock(std::move(ctrlS));
 	}
+	if ((feat & FM_LOOSECHAIN) && ver != FM_FO4 && ver != FM_FO76) {
+		auto [colS, col] = nifly::make_unique<bhkCollisionObject>();
+		auto [bodyS, body] = nifly::make_unique<bhkRigidBody>();
+		auto [boxS, box] = nifly::make_unique<bhkBoxShape>();
+		uint32_t boxId = hdr.AddBlock(std::move(boxS));
+		body->shapeRef.index = boxId;
+		uint32_t bodyId = hdr.AddBlock(std::move(bodyS));
+		col->bodyRef.index = bodyId;
+		hdr.AddBlock(std::move(colS));
+	}
 	if (feat & FM_LOOSE) {
 		auto loose = std::make_unique<NiStringExtraData>();
 		loose->name.get() = "Loose";
@@ -167,11 +178,16 @@ static inline FmRange fm_save(NifFile& nif, bool raw) {
 	r.b = sym_out_len();
 	return r;
 }
-static inline int fm_load(NifFile& nif, const FmRange& r, bool truncate = false) {
+static inline int fm_load(NifFile& nif, const FmRange& r, bool truncate = false, int seg = 0, int nseg = 1) {
 	SymIStream i;
 	sym_in_from_out(r.a, r.b);
-	if (truncate)
-		sym_set_truncation();
+	if (truncate) {
+		unsigned long len = r.b - r.a;
+		if (nseg <= 1)
+			sym_set_truncation();
+		else // the truncation points are split into nseg ranges explored by parallel jobs
+			sym_set_truncation_range(len * seg / nseg, seg + 1 == nseg ? len : len * (seg + 1) / nseg - 1);
+	}
 	return nif.Load(i.s());
 }
 
